@@ -19,6 +19,7 @@ import Ladybug.Proofs.C07Legend
 import Ladybug.Proofs.C07DesignDay
 import Ladybug.Proofs.C07Wea
 import Ladybug.Proofs.C07Csv
+import Ladybug.Proofs.C07Hist
 import Ladybug.Props.C08
 
 namespace Codec
@@ -462,5 +463,105 @@ theorem C07_DataType_string (num : Option Num → String) (descr : Option (List 
     (cls : String) (hc : Gen.DataTypes.names.contains cls = true) (ht : titleKey (spaced cls) = cls) :
     DType.ofParts ((DType.std cls Option.none).textParts num descr) = some (.std cls Option.none) :=
   std_text_roundtrip num descr cls hc ht
+
+/-! ## Round 3 — histories on one object (object state machines of Model/Serial/Hist.lean)
+
+  The state of a machine is the public state of the object; a refused operation returns the
+  unchanged state.  The real objects are compared with the machines step by step on every run
+  (driver op `hist`: accepted / refused, dictionary after every step, value of every read). -/
+
+open Hist
+
+/-- A refused operation (the code raises) leaves the object as it was: the state, and therefore
+    every observation (dictionary form, read-back, copy), is unchanged.  For every machine. -/
+theorem C07_refused_preserves {σ ω ρ : Type} (m : Machine σ ω ρ) (s : σ) (o : Op ω ρ)
+    (h : (m.step s o).2 = .refused) :
+    (m.step s o).1 = s ∧ ∀ r, m.read (m.step s o).1 r = m.read s r := by
+  have := step_refused m s o h
+  exact ⟨this, fun r => by rw [this]⟩
+
+/-- non-vacuity: a latitude that is not a number is refused -/
+example : locM.apply ⟨"a", "b", "c", .int 0, .int 0, .flt 0, .flt 0, Option.none, .none⟩
+    (.lat (.bool true)) = Option.none := rfl
+
+/-- Reads are pure: a read does not change the object, asking twice gives the same answer, the
+    order of two reads does not matter, and any number of reads leaves the state as it was. -/
+theorem C07_read_pure {σ ω ρ : Type} (m : Machine σ ω ρ) (s : σ) (a b : ρ) (rs : List ρ) :
+    (m.step s (.read a)).1 = s ∧
+    (m.step (m.step s (.read a)).1 (.read a)).2 = (m.step s (.read a)).2 ∧
+    (m.step (m.step s (.read a)).1 (.read b)).2 = (m.step s (.read b)).2 ∧
+    m.run s (rs.map Op.read) = s :=
+  ⟨rfl, rfl, rfl, run_reads m s rs⟩
+
+/-- Histories refine fresh objects (abstract form): when every accepted assignment of the domain
+    keeps the constructor's normal form `inv`, and the constructor applied to the public state of
+    a normal object gives that object (`fresh`), then after EVERY history every observation of
+    the object equals the observation of a fresh object built from its final public state. -/
+theorem C07_history_refines_fresh {σ ω ρ : Type} (m : Machine σ ω ρ) (inv : σ → Prop)
+    (dom : ω → Prop) (fresh : σ → Option σ)
+    (hp : ∀ s o s', inv s → dom o → m.apply s o = some s' → inv s')
+    (hf : ∀ s, inv s → fresh s = some s)
+    (ops : List (Op ω ρ)) (s : σ) (hs : inv s) (hd : ∀ o, Op.asg o ∈ ops → dom o) (r : ρ) :
+    (fresh (m.run s ops)).bind (fun t => m.read t r) = m.read (m.run s ops) r := by
+  rw [hf _ (run_inv m inv dom hp ops s hs hd)]; rfl
+
+/-- Location: after every history of assignments (accepted or refused: latitude, longitude, time
+    zone, elevation, the plain text attributes) and reads, starting from a constructed Location,
+    the object (1) equals the fresh object the constructor builds from its public fields
+    (`duplicate()`), (2) reads back from its dictionary, sent through JSON, equal to itself, and
+    (3) every read answers what the fresh object answers.  Domain of the assignments: see
+    `LocSet.modelled` (numbers arrive as floats, the time zone is given, text is non-empty). -/
+theorem C07_history_refines_fresh_Location (l : Loc) (hw : l.wf) (ops : List (Op LocSet Read))
+    (hd : ∀ o, Op.asg o ∈ ops → o.modelled) (r : Read) :
+    (locM.run l ops).copy = some (locM.run l ops) ∧
+    Loc.rd.dec (jsonRT (locM.run l ops).enc) = some (locM.run l ops) ∧
+    locM.read (locM.run l ops) r = some (locM.run l ops).enc := by
+  have hi : (locM.run l ops).wf :=
+    run_inv locM Loc.wf LocSet.modelled (fun s o s' a b c => locApply_wf s o s' a b c) ops l hw hd
+  refine ⟨Loc.copy_of_wf _ hi, Loc.law _ hi, ?_⟩
+  cases r with
+  | dict => rfl
+  | roundTrip =>
+    show (Loc.rd.dec (jsonRT (locM.run l ops).enc)).map Loc.enc = _
+    rw [Loc.law _ hi]; rfl
+  | copy =>
+    show ((locM.run l ops).copy).map Loc.enc = _
+    rw [Loc.copy_of_wf _ hi]; rfl
+
+/-- non-vacuity: an accepted and a refused assignment in one history -/
+example : (locM.run ⟨"a", "b", "c", .int 0, .int 0, .flt 0, .flt 0, Option.none, .none⟩
+    [.asg (.city "Lisbon"), .asg (.lat (.bool true)), .read .dict]).city = "Lisbon" := rfl
+
+/-- Data collections (all five classes, mutable and immutable): after every history of
+    `values = …`, `coll[i] = …`, `header.metadata = …` (accepted or refused; the immutable twins
+    refuse the first two) and reads, starting from a constructed collection, the object keeps its
+    class, reads back from its dictionary, sent through JSON, equal to itself, and every read
+    answers the dictionary of that read-back object.  Domain: the assigned values are
+    JSON-stable Python values (numbers, text, …; see `CollSet.modelled`). -/
+theorem C07_history_refines_fresh_Collection (c : Coll) (hw : c.wf) (ops : List (Op CollSet Read))
+    (hd : ∀ o, Op.asg o ∈ ops → o.modelled) (r : Read) :
+    (Coll.rd (collM.run c ops).kind (collM.run c ops).imm).dec (jsonRT (collM.run c ops).enc)
+      = some (collM.run c ops) ∧
+    collM.read (collM.run c ops) r = some (collM.run c ops).enc := by
+  have hi : (collM.run c ops).wf :=
+    run_inv collM Coll.wf CollSet.modelled (fun s o s' a b c => collApply_wf s o s' a b c) ops c hw hd
+  have hl := C07_Collection _ hi
+  refine ⟨hl, ?_⟩
+  cases r with
+  | dict => rfl
+  | roundTrip =>
+    show ((Coll.rd (collM.run c ops).kind (collM.run c ops).imm).dec
+      (jsonRT (collM.run c ops).enc)).map Coll.enc = _
+    rw [hl]; rfl
+  | copy =>
+    show ((Coll.rd (collM.run c ops).kind (collM.run c ops).imm).dec
+      (jsonRT (collM.run c ops).enc)).map Coll.enc = _
+    rw [hl]; rfl
+
+/-- The immutable twins refuse every assignment of values (and the object stays as it was). -/
+theorem C07_immutable_refuses (c : Coll) (hi : c.imm = true) (v : PyVal) (i : Int) :
+    (collM.step c (.asg (.values v))).2 = .refused ∧ (collM.step c (.asg (.item i v))).2 = .refused ∧
+    (collM.step c (.asg (.values v))).1 = c ∧ (collM.step c (.asg (.item i v))).1 = c := by
+  simp [collM, Machine.step, collApply, hi]
 
 end Codec
